@@ -1420,7 +1420,7 @@ qmail-rspawn.0: \
 qmail-rspawn.8
 
 qmail-rspawn.o: \
-compile qmail-rspawn.c fd.h wait.h substdio.h exit.h fork.h error.h env.h \
+compile qmail-rspawn.c fd.h byte.h wait.h substdio.h exit.h fork.h error.h env.h \
 tcpto.h spawn.h
 	./compile qmail-rspawn.c
 
